@@ -162,7 +162,7 @@ def write_evidence(pid, mod, tier, seed, R, wall, nviol, known_seen, nunits, nwo
     cov = {
         "evaluations": int(R.c["evaluations"]),
         "distinct_nontrivial": int(R.c["nontrivial"]),
-        "rule": getattr(mod, "RULE", ""),
+        "rule": getattr(mod, "RULE", "") + ((" || legs added later: " + mod.EXTRA_LEGS) if getattr(mod, "EXTRA_LEGS", "") else ""),
         "samples": R.samples[:4] or [{"note": "no sample recorded"}],
         "states": int(R.c["states"]),
         "transitions": int(R.c["transitions"]),
